@@ -297,7 +297,11 @@ class Driver:
     def _deliver(self):
         """The environment wakes a PENDING execution. Returns False if nothing can."""
         be = self.backend
-        be.refresh()
+        fired = be.refresh()
+        if fired:
+            # a timer expired while the invocation was finishing: the service re-invokes at once
+            self.env_log.append({"after_inv": self.inv - 1, "already-fired": [fmt_path(be.path_of.get(i, ("?",))) for i in fired]})
+            return True
         menu = []
         timers = be.timers()
         if timers:
@@ -308,6 +312,12 @@ class Driver:
         if self.cfg["spurious"] and not self.spurious_used and menu:
             menu.append(("spurious", None))
         if not menu:
+            if be.async_changes:
+                # a timer/event completed while the last invocation was running; the service
+                # re-invokes an execution that is PENDING with unseen completions
+                self.env_log.append({"after_inv": self.inv - 1, "completed-during-invocation":
+                                     [fmt_path(be.path_of.get(i, ("?",))) for i in be.async_changes]})
+                return True
             return False
         k = self.chooser.env("deliver", len(menu))
         kind, arg = menu[k]
